@@ -60,6 +60,7 @@ func exploreBounds(repo string) {
 	}
 	e := newAliasEngine(c)
 	withStrings = os.Getenv("STRINGS") != ""
+	withAllSlices = os.Getenv("ALLSLICES") != ""
 	entries := decodeEntryPoints(c)
 	if os.Getenv("ENTRIES") == "parse" {
 		entries = nil
